@@ -46,6 +46,12 @@ fn range_check(src: &str, sources: &SourceMap, loc: apollo_compiler::parser::Sou
     let got = loc.line_column_range(sources).map(|r| ((r.start.line, r.start.column), (r.end.line, r.end.column)));
     let want = spec_line_col(src, a).zip(spec_line_col(src, b));
     if got != want { bad.push(format!("{what}: line_column_range of {a}..{b} is {got:?}, the documented rule gives {want:?}")); }
+    // audit G2: the start-only conversion and the JSON error built from this span (`GraphQLError::new`) report the start position
+    let start = loc.line_column(sources).map(|x| (x.line, x.column));
+    if start != spec_line_col(src, a) { bad.push(format!("{what}: line_column of {a}..{b} is {start:?}, the documented rule gives {:?}", spec_line_col(src, a))); }
+    let j = apollo_compiler::response::GraphQLError::new("m", Some(loc), sources);
+    let jl: Vec<(usize, usize)> = j.locations.iter().map(|x| (x.line, x.column)).collect();
+    if Some(jl.as_slice()) != spec_line_col(src, a).as_ref().map(std::slice::from_ref) { bad.push(format!("{what}: GraphQLError::new for {a}..{b} has locations {jl:?}, the documented rule gives {:?}", spec_line_col(src, a))); }
     if let Some(file) = sources.get(&loc.file_id()) {
         let pts = file.get_line_column(a).zip(file.get_line_column(b)).map(|(x, y)| ((x.line, x.column), (y.line, y.column)));
         let rng = file.get_line_column_range(a..b).map(|r| ((r.start.line, r.start.column), (r.end.line, r.end.column)));
@@ -53,28 +59,54 @@ fn range_check(src: &str, sources: &SourceMap, loc: apollo_compiler::parser::Sou
     }
 }
 
-struct Walk<'a> { src: &'a str, sources: &'a SourceMap, bad: Vec<String>, names: usize, nodes: usize }
+/// `src`: the text of the single file of an `ast::Document`; for schemas / executable documents (several files) the text is
+/// looked up in `sources` by the location's file id.  `ctx_kind` prefixes the failure texts ("schema: ", "executable: ").
+/// `full_builtin`: also compare line/column of everything located in built_in.graphql (a long file; done once per run).
+struct Walk<'a> { #[allow(dead_code)] src: &'a str, sources: &'a SourceMap, bad: Vec<String>, names: usize, nodes: usize, ctx_kind: &'static str, full_builtin: bool }
 impl<'a> Walk<'a> {
-    fn name(&mut self, n: &Name) {
+    fn text_of(&self, loc: &apollo_compiler::parser::SourceSpan) -> Option<&'a str> {
+        let s: &'a SourceMap = self.sources;
+        s.get(&loc.file_id()).map(|f| f.source_text())
+    }
+    fn name(&mut self, n: &Name) { self.name_as(n, "name") }
+    fn name_as(&mut self, n: &Name, what: &str) {
         self.names += 1;
         match n.location() {
-            None => self.bad.push(format!("name {n} has no location")),
+            None => self.bad.push(format!("{}{what} {n} has no location", self.ctx_kind)),
             Some(loc) => {
                 let (a, b) = (loc.offset(), loc.end_offset());
-                if !self.sources.contains_key(&loc.file_id()) { self.bad.push(format!("name {n}: file id not in source map")); }
-                match self.src.get(a..b) { Some(t) if t == n.as_str() => {}, other => self.bad.push(format!("name {n} located at {a}..{b} = {other:?}")) }
-                range_check(self.src, self.sources, loc, &format!("name {n}"), &mut self.bad);
+                let Some(text) = self.text_of(&loc) else { self.bad.push(format!("{}{what} {n}: file id not in source map", self.ctx_kind)); return };
+                match text.get(a..b) { Some(t) if t == n.as_str() => {}, other => self.bad.push(format!("{}{what} {n} located at {a}..{b} = {other:?}", self.ctx_kind)) }
+                if self.full_builtin || loc.file_id() != apollo_compiler::parser::FileId::BUILT_IN {
+                    range_check(text, self.sources, loc, &format!("{what} {n}"), &mut self.bad);
+                    let own = n.line_column_range(self.sources).map(|r| ((r.start.line, r.start.column), (r.end.line, r.end.column)));
+                    if own != spec_line_col(text, a).zip(spec_line_col(text, b)) { self.bad.push(format!("{}{what} {n}: Name::line_column_range = {own:?}, the documented rule gives {:?}", self.ctx_kind, spec_line_col(text, a).zip(spec_line_col(text, b)))); }
+                }
             }
         }
     }
-    fn node<T>(&mut self, n: &Node<T>, what: &str) {
+    fn node<T: ?Sized>(&mut self, n: &Node<T>, what: &str) {
         self.nodes += 1;
         match n.location() {
-            None => self.bad.push(format!("{what} has no location")),
-            Some(loc) => { if loc.end_offset() > self.src.len() || loc.offset() > loc.end_offset() || !self.src.is_char_boundary(loc.offset()) || !self.src.is_char_boundary(loc.end_offset()) { self.bad.push(format!("{what} location {}..{} outside the file", loc.offset(), loc.end_offset())); } else { range_check(self.src, self.sources, loc, what, &mut self.bad); } }
+            None => self.bad.push(format!("{}{what} has no location", self.ctx_kind)),
+            Some(loc) => {
+                let Some(text) = self.text_of(&loc) else { self.bad.push(format!("{}{what}: file id not in source map", self.ctx_kind)); return };
+                if loc.end_offset() > text.len() || loc.offset() > loc.end_offset() || !text.is_char_boundary(loc.offset()) || !text.is_char_boundary(loc.end_offset()) { self.bad.push(format!("{}{what} location {}..{} outside the file", self.ctx_kind, loc.offset(), loc.end_offset())); } else if self.full_builtin || loc.file_id() != apollo_compiler::parser::FileId::BUILT_IN {
+                    range_check(text, self.sources, loc, what, &mut self.bad);
+                    let own = n.line_column_range(self.sources).map(|r| ((r.start.line, r.start.column), (r.end.line, r.end.column)));
+                    let want = spec_line_col(text, loc.offset()).zip(spec_line_col(text, loc.end_offset()));
+                    if own != want { self.bad.push(format!("{}{what}: Node::line_column_range = {own:?}, the documented rule gives {want:?}", self.ctx_kind)); }
+                }
+            }
         }
     }
     fn ty(&mut self, t: &ast::Type) { self.name(t.inner_named_type()); }
+    /// audit G2: a description is a located node too; its span is the string token (starts and ends with a quote)
+    fn desc(&mut self, d: &Option<Node<str>>) {
+        let Some(d) = d else { return };
+        self.node(d, "description");
+        if let Some(loc) = d.location() { if let Some(t) = self.text_of(&loc).and_then(|t| t.get(loc.offset()..loc.end_offset())) { if !(t.len() >= 2 && t.starts_with('"') && t.ends_with('"')) { self.bad.push(format!("{}description located at {}..{} = {t:?}", self.ctx_kind, loc.offset(), loc.end_offset())); } } }
+    }
     fn value(&mut self, v: &Node<ast::Value>) {
         self.node(v, "value");
         match v.as_ref() {
@@ -88,12 +120,12 @@ impl<'a> Walk<'a> {
         for d in ds.iter() { self.node(d, "directive"); self.name(&d.name); for a in &d.arguments { self.node(a, "argument"); self.name(&a.name); self.value(&a.value); } }
     }
     fn input_value(&mut self, i: &Node<ast::InputValueDefinition>) {
-        self.node(i, "input value definition"); self.name(&i.name); self.ty(&i.ty);
+        self.node(i, "input value definition"); self.desc(&i.description); self.name(&i.name); self.node(&i.ty, "type reference"); self.ty(&i.ty);
         if let Some(d) = &i.default_value { self.value(d); }
         self.directives(&i.directives);
     }
     fn fields(&mut self, fs: &[Node<ast::FieldDefinition>]) {
-        for f in fs { self.node(f, "field definition"); self.name(&f.name); self.ty(&f.ty); for a in &f.arguments { self.input_value(a); } self.directives(&f.directives); }
+        for f in fs { self.node(f, "field definition"); self.desc(&f.description); self.name(&f.name); self.ty(&f.ty); for a in &f.arguments { self.input_value(a); } self.directives(&f.directives); }
     }
     fn selections(&mut self, ss: &[ast::Selection]) {
         for s in ss {
@@ -108,31 +140,214 @@ impl<'a> Walk<'a> {
         use ast::Definition as D;
         for def in &d.definitions {
             match def {
-                D::OperationDefinition(o) => { self.node(o, "operation"); if let Some(n) = &o.name { self.name(n); } for v in &o.variables { self.node(v, "variable definition"); self.name(&v.name); self.ty(&v.ty); if let Some(x) = &v.default_value { self.value(x); } self.directives(&v.directives); } self.directives(&o.directives); self.selections(&o.selection_set); }
+                D::OperationDefinition(o) => { self.node(o, "operation"); if let Some(n) = &o.name { self.name(n); } for v in &o.variables { self.node(v, "variable definition"); self.name(&v.name); self.node(&v.ty, "type reference"); self.ty(&v.ty); if let Some(x) = &v.default_value { self.value(x); } self.directives(&v.directives); } self.directives(&o.directives); self.selections(&o.selection_set); }
                 D::FragmentDefinition(f) => { self.node(f, "fragment"); self.name(&f.name); self.name(&f.type_condition); self.directives(&f.directives); self.selections(&f.selection_set); }
-                D::DirectiveDefinition(x) => { self.node(x, "directive definition"); self.name(&x.name); for a in &x.arguments { self.input_value(a); } }
-                D::SchemaDefinition(x) => { self.node(x, "schema definition"); self.directives(&x.directives); for r in &x.root_operations { self.name(&r.1); } }
+                D::DirectiveDefinition(x) => { self.node(x, "directive definition"); self.desc(&x.description); self.name(&x.name); for a in &x.arguments { self.input_value(a); } }
+                D::SchemaDefinition(x) => { self.node(x, "schema definition"); self.desc(&x.description); self.directives(&x.directives); for r in &x.root_operations { self.name(&r.1); } }
                 D::SchemaExtension(x) => { self.node(x, "schema extension"); self.directives(&x.directives); for r in &x.root_operations { self.name(&r.1); } }
-                D::ScalarTypeDefinition(x) => { self.node(x, "scalar"); self.name(&x.name); self.directives(&x.directives); }
+                D::ScalarTypeDefinition(x) => { self.node(x, "scalar"); self.desc(&x.description); self.name(&x.name); self.directives(&x.directives); }
                 D::ScalarTypeExtension(x) => { self.node(x, "scalar ext"); self.name(&x.name); self.directives(&x.directives); }
-                D::ObjectTypeDefinition(x) => { self.node(x, "object"); self.name(&x.name); for i in &x.implements_interfaces { self.name(i); } self.directives(&x.directives); self.fields(&x.fields); }
+                D::ObjectTypeDefinition(x) => { self.node(x, "object"); self.desc(&x.description); self.name(&x.name); for i in &x.implements_interfaces { self.name(i); } self.directives(&x.directives); self.fields(&x.fields); }
                 D::ObjectTypeExtension(x) => { self.node(x, "object ext"); self.name(&x.name); for i in &x.implements_interfaces { self.name(i); } self.directives(&x.directives); self.fields(&x.fields); }
-                D::InterfaceTypeDefinition(x) => { self.node(x, "interface"); self.name(&x.name); for i in &x.implements_interfaces { self.name(i); } self.directives(&x.directives); self.fields(&x.fields); }
+                D::InterfaceTypeDefinition(x) => { self.node(x, "interface"); self.desc(&x.description); self.name(&x.name); for i in &x.implements_interfaces { self.name(i); } self.directives(&x.directives); self.fields(&x.fields); }
                 D::InterfaceTypeExtension(x) => { self.node(x, "interface ext"); self.name(&x.name); for i in &x.implements_interfaces { self.name(i); } self.directives(&x.directives); self.fields(&x.fields); }
-                D::UnionTypeDefinition(x) => { self.node(x, "union"); self.name(&x.name); for m in &x.members { self.name(m); } self.directives(&x.directives); }
+                D::UnionTypeDefinition(x) => { self.node(x, "union"); self.desc(&x.description); self.name(&x.name); for m in &x.members { self.name(m); } self.directives(&x.directives); }
                 D::UnionTypeExtension(x) => { self.node(x, "union ext"); self.name(&x.name); for m in &x.members { self.name(m); } self.directives(&x.directives); }
-                D::EnumTypeDefinition(x) => { self.node(x, "enum"); self.name(&x.name); for v in &x.values { self.node(v, "enum value"); self.name(&v.value); self.directives(&v.directives); } self.directives(&x.directives); }
-                D::EnumTypeExtension(x) => { self.node(x, "enum ext"); self.name(&x.name); for v in &x.values { self.node(v, "enum value"); self.name(&v.value); self.directives(&v.directives); } self.directives(&x.directives); }
-                D::InputObjectTypeDefinition(x) => { self.node(x, "input"); self.name(&x.name); for f in &x.fields { self.input_value(f); } self.directives(&x.directives); }
+                D::EnumTypeDefinition(x) => { self.node(x, "enum"); self.desc(&x.description); self.name(&x.name); for v in &x.values { self.node(v, "enum value"); self.desc(&v.description); self.name(&v.value); self.directives(&v.directives); } self.directives(&x.directives); }
+                D::EnumTypeExtension(x) => { self.node(x, "enum ext"); self.name(&x.name); for v in &x.values { self.node(v, "enum value"); self.desc(&v.description); self.name(&v.value); self.directives(&v.directives); } self.directives(&x.directives); }
+                D::InputObjectTypeDefinition(x) => { self.node(x, "input"); self.desc(&x.description); self.name(&x.name); for f in &x.fields { self.input_value(f); } self.directives(&x.directives); }
                 D::InputObjectTypeExtension(x) => { self.node(x, "input ext"); self.name(&x.name); for f in &x.fields { self.input_value(f); } self.directives(&x.directives); }
             }
         }
     }
 }
 
+/// audit G2: the same obligations on the *schema* and the *executable document* built from parsed text (several files)
+impl<'a> Walk<'a> {
+    fn comp_dirs(&mut self, ds: &apollo_compiler::schema::DirectiveList) {
+        for d in ds.iter() { self.node(&d.node, "directive"); self.name_as(&d.name, "directive name"); for a in &d.arguments { self.node(a, "argument"); self.name_as(&a.name, "argument name"); self.value(&a.value); } }
+    }
+    fn schema(&mut self, s: &apollo_compiler::Schema) {
+        use apollo_compiler::schema::ExtendedType as E;
+        let sd = &s.schema_definition;
+        // an implicit schema definition has no source text of its own; an explicit one must be located
+        if sd.location().is_some() { self.node(sd, "schema definition"); } self.desc(&sd.description);
+        self.comp_dirs(&sd.directives);
+        for r in [&sd.query, &sd.mutation, &sd.subscription].into_iter().flatten() { self.name_as(&r.name, "root operation type"); }
+        for (k, d) in &s.directive_definitions {
+            if d.location().is_none() && k.location().is_none() { continue; } // (none observed: built-ins are parsed from built_in.graphql)
+            self.name_as(k, "directive definition key"); self.node(d, "directive definition"); self.name_as(&d.name, "directive definition name"); self.desc(&d.description);
+            for a in &d.arguments { self.input_value(a); }
+        }
+        for (k, t) in &s.types {
+            self.name_as(k, "type map key");
+            self.name_as(t.name(), "type name");
+            match t {
+                E::Scalar(x) => { self.node(x, "scalar type"); self.desc(&x.description); self.comp_dirs(&x.directives); }
+                E::Object(x) => { self.node(x, "object type"); self.desc(&x.description); self.comp_dirs(&x.directives); for i in &x.implements_interfaces { self.name_as(&i.name, "implemented interface"); } for (fk, f) in &x.fields { self.name_as(fk, "field map key"); self.fields(std::slice::from_ref(&f.node)); } }
+                E::Interface(x) => { self.node(x, "interface type"); self.desc(&x.description); self.comp_dirs(&x.directives); for i in &x.implements_interfaces { self.name_as(&i.name, "implemented interface"); } for (fk, f) in &x.fields { self.name_as(fk, "field map key"); self.fields(std::slice::from_ref(&f.node)); } }
+                E::Union(x) => { self.node(x, "union type"); self.desc(&x.description); self.comp_dirs(&x.directives); for m in &x.members { self.name_as(&m.name, "union member"); } }
+                E::Enum(x) => { self.node(x, "enum type"); self.desc(&x.description); self.comp_dirs(&x.directives); for (vk, v) in &x.values { self.name_as(vk, "enum value key"); self.node(&v.node, "enum value"); self.desc(&v.description); self.name_as(&v.value, "enum value name"); self.directives(&v.directives); } }
+                E::InputObject(x) => { self.node(x, "input object type"); self.desc(&x.description); self.comp_dirs(&x.directives); for (fk, f) in &x.fields { self.name_as(fk, "input field key"); self.input_value(&f.node); } }
+            }
+        }
+    }
+    fn exec_set(&mut self, set: &apollo_compiler::executable::SelectionSet, synthetic: bool) {
+        use apollo_compiler::executable::Selection as S;
+        // the (empty) selection set of a meta-field such as __typename is typed by its synthetic definition
+        if !synthetic { self.name_as(&set.ty, "selection set type"); }
+        for s in &set.selections {
+            match s {
+                S::Field(f) => {
+                    self.node(f, "executable field"); if let Some(a) = &f.alias { self.name_as(a, "alias"); } self.name_as(&f.name, "field name");
+                    for a in &f.arguments { self.node(a, "argument"); self.name_as(&a.name, "argument name"); self.value(&a.value); }
+                    self.directives(&f.directives);
+                    // the definition the field was resolved to lives in the schema's files (meta-fields such as __typename are synthetic)
+                    if f.definition.location().is_some() { self.node(&f.definition, "resolved field definition"); self.name_as(&f.definition.name, "resolved field definition name"); }
+                    if f.definition.name != f.name { self.bad.push(format!("field {} resolved to definition {}", f.name, f.definition.name)); }
+                    self.exec_set(&f.selection_set, f.definition.location().is_none());
+                }
+                S::FragmentSpread(f) => { self.node(f, "executable spread"); self.name_as(&f.fragment_name, "spread fragment name"); self.directives(&f.directives); }
+                S::InlineFragment(f) => { self.node(f, "executable inline fragment"); if let Some(t) = &f.type_condition { self.name_as(t, "type condition"); } self.directives(&f.directives); self.exec_set(&f.selection_set, false); }
+            }
+        }
+    }
+    fn exec(&mut self, d: &apollo_compiler::ExecutableDocument) {
+        for o in d.operations.anonymous.iter().chain(d.operations.named.values()) {
+            self.node(o, "executable operation"); if let Some(n) = &o.name { self.name_as(n, "operation name"); }
+            for v in &o.variables { self.node(v, "variable definition"); self.name_as(&v.name, "variable name"); self.node(&v.ty, "type reference"); self.ty(&v.ty); if let Some(x) = &v.default_value { self.value(x); } self.directives(&v.directives); }
+            self.directives(&o.directives); self.exec_set(&o.selection_set, false);
+        }
+        for (k, _) in &d.operations.named { self.name_as(k, "operation map key"); }
+        for (k, f) in &d.fragments { self.name_as(k, "fragment map key"); self.node(f, "executable fragment"); self.name_as(&f.name, "fragment name"); self.directives(&f.directives); self.exec_set(&f.selection_set, false); }
+    }
+}
+
+pub const SCHEMA_L: [&str; 2] = [r#""""é desc 日本""" schema @sd(a: "é") { query: Query mutation: Mutation subscription: Subscription }
+"😀" directive @sd("é" a: String = "日", b: [In!] = [{x: 1}]) repeatable on SCHEMA | OBJECT | FIELD_DEFINITION | ARGUMENT_DEFINITION | INTERFACE | UNION | ENUM | ENUM_VALUE | INPUT_OBJECT | INPUT_FIELD_DEFINITION | SCALAR | FIELD | QUERY | MUTATION | SUBSCRIPTION | FRAGMENT_DEFINITION | FRAGMENT_SPREAD | INLINE_FRAGMENT | VARIABLE_DEFINITION
+scalar Date @sd
+type Query implements Node & Named @sd(a: "😀") { "é" id: ID! "é" name("日本" first: Int = 1 @sd, "日本" after: Date): String @sd  node("é" in: In = {x: 2, y: ["é"]}): Node u: U e(e: E = A): E q: Query }
+type Mutation { m(in: In!): Query }
+type Subscription { s: Query }
+interface Node @sd { id: ID! }
+"#, r#"interface Named implements Node { id: ID! "😀😀" name(first: Int = 1, after: Date): String }
+"é" union U @sd = Query | Mutation
+enum E @sd { "é" A @sd(a: "é") B }
+"日" input In @sd { "é" x: Int = 1 @sd "é" y: [String] z: In }
+extend schema @sd(a: "x")
+extend type Query @sd(a: "é") { "é" ext(a: Int): Int }
+extend interface Node @sd
+extend union U @sd(a: "é") = Subscription
+extend enum E @sd(a: "é") { "é" C }
+extend input In @sd(a: "é") { "é" w: Float = 1.5 }
+extend scalar Date @sd(a: "日本")
+"#];
+
+fn gen_exec_sels(r: &mut Rng, ty: &str, depth: usize, nfrag: usize, out: &mut String) {
+    out.push('{');
+    let n = 1 + r.below(3);
+    for _ in 0..n {
+        out.push(' ');
+        let dirs = |r: &mut Rng| -> &'static str { *r.pick(&["", "", "", " @sd", " @sd(a: \"é日😀\")", " @skip(if: $b)", " @include(if: true) @sd(b: [{x: 1, y: [\"é\"]}])"]) };
+        let k = r.below(10);
+        if k == 0 && depth < 3 { out.push_str("..."); out.push_str(dirs(r)); out.push(' '); gen_exec_sels(r, ty, depth + 1, nfrag, out); continue; }
+        if k == 1 && depth < 3 && ty != "Mutation" && ty != "Subscription" { out.push_str("... on Query"); out.push_str(dirs(r)); out.push(' '); gen_exec_sels(r, "Query", depth + 1, nfrag, out); continue; }
+        if k == 2 && nfrag > 0 && ty != "Mutation" && ty != "Subscription" { out.push_str(&format!("...F{}", r.below(nfrag))); out.push_str(dirs(r)); continue; }
+        let fields: &[&str] = match ty { "Query" => &["id", "name", "node", "u", "e", "q", "ext", "__typename"], "Mutation" => &["m"], "Subscription" => &["s"], "Node" => &["id", "__typename"], "Named" => &["id", "name"], _ => &["__typename"] };
+        let f = *r.pick(fields);
+        if r.chance(1, 3) { out.push_str(*r.pick(&["al: ", "x_1: ", "id: ", "on: "])); }
+        out.push_str(f);
+        match f {
+            "name" => if r.chance(1, 2) { out.push_str(*r.pick(&["(first: 3, after: \"é日\")", "(first: $n)", "(after: \"😀\", first: 1)"])); },
+            "node" => if r.chance(1, 2) { out.push_str(*r.pick(&["(in: {x: 1, y: [\"é\", \"😀\"], z: {x: $n}})", "(in: null)", "(in: {y: [], w: 1.5})"])); },
+            "e" => if r.chance(1, 2) { out.push_str(*r.pick(&["(e: B)", "(e: $e)"])); },
+            "ext" => if r.chance(1, 2) { out.push_str("(a: 7)"); },
+            "m" => out.push_str("(in: {x: 1})"),
+            _ => {}
+        }
+        out.push_str(dirs(r));
+        let sub = match f { "node" => Some("Node"), "u" => Some("U"), "q" | "m" | "s" => Some("Query"), _ => None };
+        if let Some(t) = sub { out.push(' '); if depth < 3 { gen_exec_sels(r, t, depth + 1, nfrag, out); } else { out.push_str("{ __typename }"); } }
+    }
+    out.push_str(" }");
+}
+
+fn gen_exec(r: &mut Rng) -> String {
+    let nfrag = r.below(3);
+    let mut out = String::new();
+    let nops = 1 + r.below(2);
+    for i in 0..nops {
+        let (kw, root) = *r.pick(&[("query", "Query"), ("query", "Query"), ("mutation", "Mutation"), ("subscription", "Subscription")]);
+        if nops == 1 && kw == "query" && r.chance(1, 4) { gen_exec_sels(r, root, 0, nfrag, &mut out); out.push('\n'); continue; }
+        let mut body = String::new();
+        gen_exec_sels(r, root, 0, nfrag, &mut body);
+        // fragments may use any of the variables, so an operation that spreads one declares them all
+        let spreads = body.contains("...F");
+        let vars: Vec<&str> = [("$n", "$n: Int = 1 @sd(a: \"é\")"), ("$e", "$e: E = A"), ("$b", "$b: Boolean! = true")].iter().filter(|(v, _)| spreads || body.contains(v)).map(|x| x.1).collect();
+        let vars = if vars.is_empty() { String::new() } else { format!("({})", vars.join(", ")) };
+        out.push_str(&format!("{kw} Op{i}{vars}{} {body}\n", *r.pick(&["", " @sd", " @sd(a: \"日本😀\")"])));
+    }
+    for j in 0..nfrag { out.push_str(&format!("fragment F{j} on Query{} ", *r.pick(&["", " @sd(a: \"é\")"]))); gen_exec_sels(r, "Query", 2, 0, &mut out); out.push('\n'); }
+    out
+}
+
+/// insert ignored tokens (white space of every kind, BOM, commas, comments with multi-byte text and unusual separators) at
+/// random token boundaries: validity is unchanged, byte offsets / lines / columns move
+fn decorate(r: &mut Rng, src: &str, n: usize) -> String {
+    let safe = ["\u{feff}", " ", "\n", "\r\n", "\r", ",", "\t", "# é日😀\u{2028}\u{85}\u{c}x\n", "#\r", "\u{feff}\u{feff} "];
+    let mut src = src.to_string();
+    for _ in 0..n {
+        let pcs = crate::gen::pieces(&src);
+        if pcs.is_empty() { break; }
+        let at = r.below(pcs.len() + 1);
+        src = pcs[..at].concat() + *r.pick(&safe) + &pcs[at..].concat();
+    }
+    src
+}
+
+/// every JSON location / line_column_range of the diagnostics = the documented rule applied to the diagnostic's own span
+fn diagnostics_check(ctx: &mut Ctx, input: &str, sources: &SourceMap, errors: &apollo_compiler::validation::DiagnosticList) {
+    for d in errors.iter() {
+        let Some(loc) = d.error.location() else { ctx.stat("diagnostics_without_location"); continue };
+        let Some(file) = sources.get(&loc.file_id()) else { ctx.fail("json-error-location", input, "diagnostic location in a file that is not in the source map"); continue };
+        let text = file.source_text();
+        let j = d.to_json();
+        let want = spec_line_col(text, loc.offset());
+        let got = j.locations.first().map(|l| (l.line, l.column));
+        if got != want || j.locations.len() != 1 { ctx.fail("json-error-location", input, &format!("diagnostic at {}..{}: JSON locations {:?}, the documented rule gives {want:?}", loc.offset(), loc.end_offset(), j.locations.iter().map(|l| (l.line, l.column)).collect::<Vec<_>>())); }
+        let r = d.line_column_range().map(|r| ((r.start.line, r.start.column), (r.end.line, r.end.column)));
+        let wr = spec_line_col(text, loc.offset()).zip(spec_line_col(text, loc.end_offset()));
+        if r != wr { ctx.fail("json-error-location", input, &format!("diagnostic at {}..{}: line_column_range {r:?}, the documented rule gives {wr:?}", loc.offset(), loc.end_offset())); }
+        ctx.stat("json_locations_checked");
+    }
+}
+
+/// schema from two files + executable document: every name and node of both is located in its own file
+fn typed_location_cases(ctx: &mut Ctx, schema_files: &[String], exec_src: &str, full_builtin: bool, with_model: bool) {
+    use apollo_compiler::{validation::Valid, ExecutableDocument, Schema};
+    let input = format!("{} ‖ {exec_src}", schema_files.join(" ‖ "));
+    let built = catch(|| { let mut b = Schema::builder(); for (i, f) in schema_files.iter().enumerate() { b = b.parse(f.clone(), format!("s{i}.graphql")); } b.build() });
+    let (schema, schema_ok) = match built { Ok(Ok(s)) => (s, true), Ok(Err(e)) => { diagnostics_check(ctx, &input, &e.partial.sources, &e.errors); (e.partial, false) } Err(m) => { ctx.fail("ast-parse-panic", &input, &m); return } };
+    let mut bad = vec![];
+    { let mut w = Walk { src: "", sources: &schema.sources, bad: vec![], names: 0, nodes: 0, ctx_kind: "schema: ", full_builtin }; w.schema(&schema); ctx.stat_n("schema_names_checked", w.names as u64); ctx.stat_n("schema_nodes_checked", w.nodes as u64); bad.extend(w.bad); }
+    // validation diagnostics of the schema
+    let schema = match catch(|| schema.clone().validate()) { Ok(Ok(v)) => v, Ok(Err(e)) => { diagnostics_check(ctx, &input, &e.partial.sources, &e.errors); Valid::assume_valid(e.partial) } Err(m) => { ctx.fail("ast-parse-panic", &input, &m); return } };
+    ctx.stat(if schema_ok { "typed_schema_built_clean" } else { "typed_schema_with_build_errors" });
+    let doc = match catch(|| ExecutableDocument::parse(&schema, exec_src.to_string(), "q.graphql")) { Ok(Ok(d)) => d, Ok(Err(e)) => { let mut all = (*schema.sources).clone(); all.extend(e.partial.sources.iter().map(|(k, v)| (*k, v.clone()))); diagnostics_check(ctx, &input, &std::sync::Arc::new(all), &e.errors); e.partial } Err(m) => { ctx.fail("ast-parse-panic", &input, &m); return } };
+    let mut all = (*schema.sources).clone();
+    all.extend(doc.sources.iter().map(|(k, v)| (*k, v.clone())));
+    let all: SourceMap = std::sync::Arc::new(all);
+    { let mut w = Walk { src: "", sources: &all, bad: vec![], names: 0, nodes: 0, ctx_kind: "executable: ", full_builtin }; w.exec(&doc); ctx.stat_n("exec_names_checked", w.names as u64); ctx.stat_n("exec_nodes_checked", w.nodes as u64); bad.extend(w.bad); }
+    if let Ok(Err(e)) = catch(|| doc.clone().validate(&schema)) { diagnostics_check(ctx, &input, &all, &e.errors); ctx.stat("typed_exec_invalid"); } else { ctx.stat("typed_exec_valid"); }
+    for b in bad.iter().take(3) { ctx.fail("typed-location-wrong", &input, b); }
+    // the same texts through the Lean model of parser + ast/from_cst.rs (existing stream `c08.fromcst`: AST dump and the
+    // (offset, length) of every name) — ignored tokens with multi-byte text move every offset
+    if with_model { for f in schema_files { crate::pfromcst::case(ctx, f); } crate::pfromcst::case(ctx, exec_src); ctx.stat("typed_fromcst_model_cases"); }
+}
+
 fn location_cases(ctx: &mut Ctx, src: &str) {
     let doc = match catch(|| ast::Document::parse(src, "d.graphql")) { Ok(Ok(d)) => d, Ok(Err(e)) => e.partial, Err(m) => { ctx.fail("ast-parse-panic", src, &m); return } };
-    let mut w = Walk { src, sources: &doc.sources, bad: vec![], names: 0, nodes: 0 };
+    let mut w = Walk { src, sources: &doc.sources, bad: vec![], names: 0, nodes: 0, ctx_kind: "", full_builtin: true };
     w.doc(&doc);
     ctx.stat_n("names_checked", w.names as u64);
     ctx.stat_n("nodes_checked", w.nodes as u64);
@@ -195,6 +410,43 @@ pub fn run(ctx: &mut Ctx) {
     let mut all = vec![];
     for_all_strings(&["a", "é", "😀", "\n", "\r", "\u{c}", "\u{2028}", "\u{85}", " "], if ctx.thorough { 6 } else { 5 }, |s| all.push(s.to_string()));
     for s in &all { linecol_cases(ctx, s); }
+    // audit G2: the characters the first alphabet lacks (TAB, BOM, VT, a three-byte character) around the line terminators
+    let mut more = vec![];
+    for_all_strings(&["a", "\t", "\u{feff}", "\u{b}", "日", "\n", "\r"], if ctx.thorough { 5 } else { 4 }, |s| more.push(s.to_string()));
+    ctx.stat_n("linecol_second_alphabet_strings", more.len() as u64);
+    for s in &more { linecol_cases(ctx, s); }
+    // audit G2: schema (two files) + executable document: locations of everything in both; diagnostics of build and validation
+    let n_typed = if ctx.thorough { 6_000 } else { 600 };
+    for i in 0..n_typed {
+        let mut files: Vec<String> = SCHEMA_L.iter().map(|s| s.to_string()).collect();
+        let mut q = gen_exec(&mut ctx.rng);
+        match i % 4 {
+            1 => { // executable-side errors
+                match ctx.rng.below(5) {
+                    0 => q = q.replacen(" id", " idx", 1),
+                    1 => q = q.replace("$n)", "$zz)"),
+                    2 => q.push_str("fragment Unused on Query { id }\n"),
+                    3 => q = q.replacen("(first: 3", "(first: \"é\"", 1).replacen("(e: B)", "(e: \"日\")", 1),
+                    _ => q.push_str("query Op0 { id }\n{ id }\n"),
+                }
+            }
+            2 => { // schema-side errors (validation, and a build error)
+                match ctx.rng.below(5) {
+                    0 => files[0] = files[0].replace("interface Node @sd { id: ID! }", "interface Node @sd { id: ID! other: Missing }"),
+                    1 => files[1] = files[1].replace("= Query | Mutation", "= Query | Mutation | Date"),
+                    2 => files[1] = files[1].replace("enum E @sd {", "enum E @sd @nope(a: \"é\") {"),
+                    3 => files[1].push_str("\"é\" type Mutation { dup: Int }\n"),
+                    _ => files[0] = files[0].replace("scalar Date @sd", "scalar Date @sd(zz: \"😀\")"),
+                }
+            }
+            _ => {}
+        }
+        for f in files.iter_mut() { let k = ctx.rng.below(6); *f = decorate(&mut ctx.rng, f, k); }
+        let k = ctx.rng.below(5);
+        let q = decorate(&mut ctx.rng, &q, k);
+        // the line/column of every name of built_in.graphql (a long file) is compared in the first case only; its names' texts always
+        typed_location_cases(ctx, &files, &q, i == 0, i % 3 == 0);
+    }
     let n = if ctx.thorough { 20_000 } else { 2_000 };
     let mut cov = std::collections::BTreeMap::new();
     let inserts = ["é", "😀", "\u{c}", "\u{2028}", "\r\n", "\r", "# 日本\u{85}語\n", "\"\u{2029}é\" "];
